@@ -18,7 +18,8 @@ use crate::{
         computation_graph::{
             CallerInformation, QueryKind,
             database::{
-                NodeDependency, NodeInfo, Observation, Snapshot, Timestamp,
+                ForwardEdgeObservation, NodeDependency, NodeInfo, Observation,
+                Snapshot, Timestamp,
             },
             slow_path::SlowPath,
             tfc_achetype::TransitiveFirewallCallees,
@@ -178,6 +179,11 @@ impl QueryComputing {
     }
 
     pub const fn query_kind(&self) -> QueryKind { self.query_kind }
+
+    /// The transitive firewall callees observed so far.
+    pub const fn tfc(&self) -> &scc::HashSet<QueryID, FxBuildHasher> {
+        &self.tfc
+    }
 
     pub fn caller_observe_tfc_callees(
         &self,
@@ -643,6 +649,7 @@ impl<C: Config, Q: Query> Snapshot<C, Q> {
         mut self,
         clean_edges: Vec<QueryID>,
         new_tfc: Option<Interned<TransitiveFirewallCallees>>,
+        new_forward_edge_observation: Option<ForwardEdgeObservation<C>>,
         caller_information: &CallerInformation,
         mut lock_guard: ComputingLockGuard<C>,
     ) {
@@ -657,7 +664,13 @@ impl<C: Config, Q: Query> Snapshot<C, Q> {
         async move {
             let _active_computation_guard = active_computation_guard;
             crate::verif_pause!("c.g.start", Some(self.query_id()));
-            self.clean_query(clean_edges, new_tfc, timsestamp).await;
+            self.clean_query(
+                clean_edges,
+                new_tfc,
+                new_forward_edge_observation,
+                timsestamp,
+            )
+            .await;
             crate::verif_pause!("c.g.cleaned", Some(self.query_id()));
 
             lock_guard.done();
